@@ -184,7 +184,7 @@ def run_part(report, prop, key, u, opts, tier):
             if n_rej <= 50:
                 report.violation(v[4:], {"kind": "match", "pattern": pats[c["p"] - 1], "listing": lsts[c["l"] - 1],
                                          "mfm": c["mfm"], "ofm": c["ofm"], "spelling": rules[o["r"]][3],
-                                         "range": list(rules[o["r"]][4]), "obs": c["obs"], "nostream": c["nostream"], "rand": c["rand"],
+                                         "range": list(rules[o["r"]][4]), "obs": c.get("obs", False), "nostream": c.get("nostream", False), "rand": c.get("rand", False),
                                          "fresh": opts.get("fresh", False), "debug_level": opts.get("debug_level", False),
                                          "macros": opts.get("macros"), "rule_yaml": job_rules[o["r"]]["yaml"],
                                          "listing_text": job_listings[o["l"]]["text"], "observed": o})
